@@ -70,7 +70,31 @@ pub fn pop_sizes(order: &[usize], assign: &[Option<usize>]) -> Vec<usize> {
 /// a random record: per-column class drawn with the given weights (called, missing, multi, ploidy), with the pattern
 /// "only an unselected sample is missing / erroneous" forced when `force_unselected_bad`
 pub fn record(g: &mut Gen, assign: &[Option<usize>], w: [u64; 4], force_unselected_bad: bool, mem: bool) -> Vec<String> {
+    // a caller that asks for no ploidy errors (weight 0) gets none from the structured records either
+    record_opts(g, assign, w, force_unselected_bad, mem, w[3] > 0)
+}
+
+/// `record` with the say on whether the odd column of a no-ALT record may be a reference call of another ploidy
+pub fn record_opts(g: &mut Gen, assign: &[Option<usize>], w: [u64; 4], force_unselected_bad: bool, mem: bool, odd_ploidy: bool) -> Vec<String> {
     let tot: u64 = w.iter().sum();
+    // one record in eight is FIXED within every population (all of its samples homozygous for the same allele, REF or ALT drawn per
+    // population: fixed differences between populations, sites fixed for ALT everywhere) — the records a "nothing to sample here"
+    // shortcut singles out; unselected columns stay arbitrary
+    if !force_unselected_bad && g.rng.chance(1, 8) {
+        let alt: Vec<bool> = (0..8).map(|_| g.rng.chance(1, 2)).collect();
+        return assign.iter().map(|a| match a {
+            Some(p) => (if mem { if alt[*p % 8] { "2" } else { "0" } } else if alt[*p % 8] { *g.rng.pick(&["1/1", "1|1"]) } else { *g.rng.pick(&["0/0", "0|0"]) }).to_string(),
+            None => { let cands: Vec<u64> = (0..3u64).filter(|c| *c == 0 || w[*c as usize] > 0).collect(); let class = *g.rng.pick(&cands); (if mem { g.gt_mem(class) } else { g.gt_cli(class) }).to_string() }
+        }).collect();
+    }
+    // … and one in twelve has no ALT allele at all (the VCF writer spells ALT `.`): homozygous reference calls with one odd column —
+    // missing, partly missing, or a reference call of another ploidy (`0`, `0/0/0`): what a "nothing to count here" shortcut skips
+    if !force_unselected_bad && w[1] > 0 && g.rng.chance(1, 12) {
+        let odd = g.rng.below(assign.len() as u64) as usize;
+        let odd_gt: &'static str = if mem { *g.rng.pick(&["m", "m", "p"]) } else { *g.rng.pick(&[".", "./.", "0/.", "./0", ".|.", "./.", "0", "0/0/0"]) };
+        let odd_gt = if !odd_ploidy && ["p", "0", "0/0/0"].contains(&odd_gt) { if mem { "m" } else { "./." } } else { odd_gt };
+        return (0..assign.len()).map(|c| if c == odd { odd_gt.to_string() } else if mem { "0".to_string() } else { g.rng.pick(&["0/0", "0|0"]).to_string() }).collect();
+    }
     assign.iter().map(|a| {
         let mut class = { let mut x = g.rng.below(tot); let mut c = 0; for (i, wi) in w.iter().enumerate() { if x < *wi { c = i as u64; break; } x -= wi; } c };
         if force_unselected_bad { class = if a.is_none() { 1 + g.rng.below(3) } else { 0 }; }
@@ -186,21 +210,24 @@ pub fn gen_c08(ctx: &Ctx, rng: &mut Rng, out: &mut Vec<String>) {
     for g in ["|0/1", "/0/1", "|1|1", "|.", "/.", "|./.", "0/+1", "+1/+1", "+0|+0", "0/18446744073709551615", "18446744073709551616/0", "0/18446744073709551616", "99999999999999999999999/1",
               "0//1", "0/", "/", "|", "0|", "||0", "++1/0", "0/-1", "-0/0", "0/1/", "|0", "/1", "|0/1/1"] { gts.push(g.to_string()); }
     let vcf_only = |gt: &str| needs_wide(gt) || gt.contains('+') || gt.contains('-') || gt.starts_with('/') || gt.starts_with('|') || gt.ends_with('/') || gt.ends_with('|') || gt.contains("//") || gt.contains("||") || gt.len() > 20;
-    for gt in &gts {
+    for (gi, gt) in gts.iter().enumerate() {
+        // every other string: the record after it sits at the same contig and position (a site split over two records, a SNP next to an
+        // indel) — the classification of a genotype does not depend on where its record is
+        let tail = if gi % 2 == 1 { "chr2~77~0/1,1/1;chr2~77~1/1,0/1;chr2~78~0/0,0/1" } else { "chr2~78~0/1,1/1" };
         for (sel, sl) in [("selected", "s:s0=A"), ("unselected", "s:s1=A"), ("both", "N")] {
             for container in ["vcf", "bcf"] {
                 // BCF cannot carry allele indices that need int16 without hitting the dependency's known defect (F18): keep <= 10 there (all listed are)
                 if container == "bcf" && vcf_only(gt) { continue; }
                 if !ctx.tier_thorough && sel == "both" && container == "bcf" { continue; }
                 // a second record after it shows that a ploidy error really stops the run and that nothing leaks
-                out.push(format!("c08.cli\t{container}\tpath\t4\t0\t0\ts0,s1\t{sl}\tN\t0\t-\tchr2~77~{gt},0/1;chr2~78~0/1,1/1"));
+                out.push(format!("c08.cli\t{container}\tpath\t4\t0\t0\ts0,s1\t{sl}\tN\t0\t-\tchr2~77~{gt},0/1;{tail}"));
             }
         }
         // byte level: the GT string inside real VCF text / BCF int8 vectors, decoded by the container model
         for container in ["vcf", "rawbcf", "vcfgz"] {
             if container == "rawbcf" && vcf_only(gt) { continue; }
             if !ctx.tier_thorough && container == "vcfgz" && gt.len() > 3 { continue; }
-            let rs = format!("chr2~77~{gt},0/1;chr2~78~0/1,1/1");
+            let rs = format!("chr2~77~{gt},0/1;{tail}");
             let cs = crate::vcf::CallSet { cols: cols(2), recs: crate::create::parse_records(&rs), extras: false, wide: 0 };
             if let Some(l) = crate::create::bytes_case(&cs, container, 2, "s0,s1", "s:s0=A", "N", "0", "-", &rs) { out.push(l); }
         }
@@ -278,14 +305,17 @@ pub fn gen_c09(ctx: &Ctx, rng: &mut Rng, out: &mut Vec<String>) {
             }
         }
         let base_order: Vec<usize> = (0..ncols).collect();
-        // a third of the call sets use sample names and labels with blanks / punctuation (never `,` `=` tab or newline, which
-        // delimit the list syntax): distinct labels sharing their first word, a label that is a prefix of another, an empty label
+        // a third of the call sets use sample names and labels with blanks / punctuation (never `,` tab or newline, which
+        // delimit the list syntax; `=` only inside labels): distinct labels sharing their first word, a label that is a prefix of another, an empty label
         let styled = i % 3 == 1;
         let c: Vec<String> = if styled { (0..ncols).map(|j| match j % 4 { 0 => format!("s{j} x"), 1 => format!("NA {j}"), 2 => format!("s{j}.b-1"), _ => format!("s{j}") }).collect() } else { cols(ncols) };
         let labels: Vec<String> = if styled {
             let mut pool: Vec<&str> = STYLED_LABELS.to_vec(); g.rng.shuffle(&mut pool);
             if i % 2 == 1 { pool.retain(|l| !l.is_empty()); }
-            pool.into_iter().take(5).map(|l| l.to_string()).collect()
+            let mut l: Vec<String> = pool.into_iter().take(5).map(|l| l.to_string()).collect();
+            // only the FIRST `=` of a `--samples` item separates name from label: labels that contain the character themselves
+            if i % 2 == 0 { l[0] = "K=1".into(); l[1] = "K=2".into(); l[2] = "a=b=".into(); }
+            l
         } else { (0..5).map(pop_name).collect() };
         let samples_arg = |order: &[usize], assign: &[Option<usize>], unnamed: Option<usize>, via_file: bool| samples_arg_styled(order, assign, unnamed, via_file, &c, &labels);
         // (a) the list as given, inline and via file
@@ -335,6 +365,9 @@ fn kind_record(kind: usize, mem: bool) -> Vec<String> {
         6 => ["m", "x", "m", "0"],          // every selected sample uncalled (nothing is counted at all)
         7 => ["x", "m", "x", "m"],          // every sample uncalled
         8 => ["@", "@", "@", "@"],          // the record has no GT key at all (FORMAT DP only): every sample missing (CLI / VCF only)
+        9 => ["2", "2", "0", "x"],          // a fixed difference: population 0 fixed for ALT, population 1 for REF (complete, totals 4,2)
+        10 => ["2", "2", "2", "0"],         // fixed for ALT everywhere
+        11 => ["0", "0", "2", "m"],         // the other fixed difference
         _ => ["0", "1", "2", "m"],          // complete, different counts
     };
     if mem { v.iter().map(|s| if *s == "@" { "m".to_string() } else { s.to_string() }).collect() } else {
@@ -346,7 +379,7 @@ pub fn gen_c11(ctx: &Ctx, rng: &mut Rng, out: &mut Vec<String>) {
     let cols4 = "a,b,c,d";
     let sl = "s:a=P,b=P,c=Q";
     // every ordered pair (predecessor kind, successor kind), with and without projection
-    for p in 0..8 { for s in 0..8 {
+    for p in (0..12).filter(|k| *k != 8) { for s in (0..12).filter(|k| *k != 8) {
         for proj in ["N", "shape:3,3", "shape:5,3", "ind:1,0"] {
             let recs = vec![("1".to_string(), 1, kind_record(p, true)), ("1".to_string(), 2, kind_record(s, true))];
             out.push(format!("c11.mem\t{cols4}\t{sl}\t{proj}\t{}", records_str(&recs)));
@@ -360,7 +393,7 @@ pub fn gen_c11(ctx: &Ctx, rng: &mut Rng, out: &mut Vec<String>) {
     let nperm = if ctx.tier_thorough { 20 } else { 5 };
     for i in 0..nseq {
         let len = rng.range(2, 12) as usize;
-        let kinds: Vec<usize> = (0..len).map(|_| rng.below(8) as usize).collect();
+        let kinds: Vec<usize> = (0..len).map(|_| [0usize, 1, 2, 3, 4, 5, 6, 7, 9, 10, 11][rng.below(11) as usize]).collect();
         let proj = *rng.pick(&["N", "shape:3,3", "shape:5,3", "shape:4,2", "shape:1,1", "ind:2,1", "ind:1,1"]);
         // odd sequences: runs of records sharing contig and position (every permutation / split then moves records in and out of such runs)
         let mk = |ks: &[usize], mem: bool| -> String { records_str(&ks.iter().enumerate().map(|(j, k)| ("1".to_string(), if i % 2 == 1 { 1 + j / 3 } else { j + 1 }, kind_record(*k, mem))).collect::<Vec<_>>()) };
@@ -428,6 +461,7 @@ pub fn gen_mass(ctx: &Ctx, p: &str, out: &mut Vec<String>) {
 }
 
 pub fn gen_c10(ctx: &Ctx, rng: &mut Rng, out: &mut Vec<String>) {
+    gen_boundary_blank("c10", ctx.tier_thorough, out);
     gen_mass(ctx, "c10", out);
     // large cohorts under projection through the binary: every counted record must still weigh exactly one
     for n in [540usize, 600] {
@@ -489,6 +523,34 @@ pub fn gen_c10(ctx: &Ctx, rng: &mut Rng, out: &mut Vec<String>) {
                     }
                 }
             }
+        }
+    }
+}
+
+/// An empty line in the body of plain VCF text, placed so that its line feed is the LAST byte of a buffer the reader fills (the 64 KiB
+/// detection prefix; one and two 8 KiB `BufReader` fills behind it) and, as a control, in the middle of a buffer: wherever it stands,
+/// the run fails and nothing is written — a decision taken on the bytes that happen to be buffered only shows at those offsets.
+pub fn gen_boundary_blank(prop: &str, thorough: bool, out: &mut Vec<String>) {
+    let nrec = 2600usize;
+    let gts = |r: usize| -> Vec<String> { (0..4).map(|c| ["0/1", "0|1", "1/1", "0/0", "1|0"][(r + c) % 5].to_string()).collect() };
+    let base: Vec<(String, usize, Vec<String>)> = (0..nrec).map(|r| ("chr1".to_string(), r + 1, gts(r))).collect();
+    let targets: &[usize] = if thorough { &[65536, 65536 + 8192, 65536 + 16384, 70001, 32768] } else { &[65536, 65536 + 8192, 70001] };
+    for (ti, target) in targets.iter().enumerate() {
+        let plain = crate::vcf::vcf_text(&crate::vcf::CallSet { cols: cols(4), recs: crate::create::parse_records(&records_str(&base)), extras: false, wide: 0 });
+        // offsets just behind each line feed; the last one not beyond target - 1, and the number of records in front of it
+        let mut ends: Vec<usize> = Vec::new(); for (j, b) in plain.iter().enumerate() { if *b == b'\n' { ends.push(j + 1); } }
+        let header_lines = plain.split(|b| *b == b'\n').take_while(|l| l.first() == Some(&b'#')).count();
+        let Some(li) = ends.iter().rposition(|e| *e <= target - 1) else { continue };
+        if li + 1 <= header_lines { continue; }
+        let d = target - 1 - ends[li];
+        let nbefore = li + 1 - header_lines;
+        let mut names = cols(4); names[0] = format!("s0{}", "x".repeat(d));
+        let mut recs = base.clone();
+        recs.insert(nbefore, ("chr1".to_string(), nbefore, vec!["!blank".to_string()]));
+        let sl = format!("s:{}=A,s2=A,s3=B", names[0]);
+        for (transport, strict) in [("path", "0"), ("stdin", "0"), ("path", "1")] {
+            if !thorough && ti > 0 && strict == "1" { continue; }
+            out.push(format!("{prop}.cli\tvcf\t{transport}\t4\t0\t0\t{}\t{sl}\tN\t{strict}\t-\t{}", names.join(","), records_str(&recs)));
         }
     }
 }
@@ -608,7 +670,7 @@ pub fn gen_c12(ctx: &Ctx, rng: &mut Rng, out: &mut Vec<String>) {
         let sizes = pop_sizes(&order, &assign);
         let nrec = if i % 5 == 4 { g.rng.range(500, 3000) as usize } else { g.rng.range(1, 60) as usize };
         let bad_last = i % 6 == 5;
-        let mut recs: Vec<(String, usize, Vec<String>)> = (0..nrec).map(|r| (if r < nrec / 2 { "1" } else { "2" }.to_string(), 1 + (2 * r) / 3, record(&mut g, &assign, [80, 12, 8, 0], false, false))).collect();
+        let mut recs: Vec<(String, usize, Vec<String>)> = (0..nrec).map(|r| (if r < nrec / 2 { "1" } else { "2" }.to_string(), 1 + (2 * r) / 3, record_opts(&mut g, &assign, [80, 12, 8, 0], false, false, true))).collect();
         if bad_last { let k = assign.iter().position(|a| a.is_some() || sl == "N").unwrap_or(0); let last = recs.len() - 1; recs[last].2[k] = "0/0/1".into(); }
         let proj = if i % 2 == 0 && sl != "N" { format!("shape:{}", sizes.iter().map(|n| (1 + g.rng.range(1, 2 * *n as u64)).to_string()).collect::<Vec<_>>().join(",")) } else { "N".to_string() };
         bcf_safe(&mut recs);
